@@ -227,7 +227,7 @@ func c25NormValue(v string) string {
 }
 
 func c25(r *vkit.Run) {
-	r.SetRule("full in-process BFE (HTTP + HTTPS with ALPN h2 and spdy/3.1), backend keep-alive off so each forwarded request has its own backend connection whose complete byte stream is captured; requests arrive over HTTP/1.1 (raw bytes), HTTP/2 (x/net framer + HPACK literals with arbitrary name/value bytes) and SPDY/3.1 (raw header block), carrying benign fields plus one hostile ingredient: header names with CR LF / LF / space / colon / NUL / DEL / obs-text, values with CRLF / LF / CR / CRLFCRLF+second request / NUL / CTL / DEL / obs-text, and method / path / host pseudo-headers with embedded request lines; oracle = strict RFC 7230 reference parse of the backend byte stream: exactly one request consuming all bytes, then method/target/host/fields/body compared with what a harness filter saw bfe accept. Second family (byte-splice, c25bytes.go): requests carrying the usual proxy-chain fields (X-Forwarded-For/-Proto/-Host/-Port, X-Real-Ip, Cookie, User-Agent, Referer, Accept, Authorization, a custom field) with ONE hostile byte spliced at the start / middle / end of one position: Host (:authority, :host), the value of each of those fields, a header name, the path, the query, the method. Byte classes: bare CR, CR at the end (on HTTP/1 the wire carries CR CR LF), NUL, another CTL (0x01-0x08,0x0b,0x0c,0x0e-0x1f), DEL, obs-text (0x80-0xff), HTAB, SP; on HTTP/2 and SPDY also LF and CRLF. On HTTP/1 LF / CRLF are not generated: LF ends a line at the reader, it is message structure, not a byte of a value (likewise a header name starting with SP/HTAB is an obs-fold continuation, and on SPDY NUL is the separator of a value list). In the middle the rest of the ingredient is sometimes 'Injected: 1', so a reader taking the hostile byte as a line end sees an added field. Cells (frontend, position, class, place) are enumerated round-robin in a seed-dependent order; the seed picks the byte of a class, the offset, the method. Same oracle: a rejected request (nothing at the backend) is always fine; what is forwarded must be one well-formed request: CTLs / bare CR anywhere and obs-text outside field values (name, method) are not well-formed; obs-text, HTAB and SP inside a field value are (RFC 7230 3.2.6). One named exclusion: bytes >= 0x80 inside the request-target are judged only by byte equality with the accepted target, not as malformed (RFC 7230 3.1.1 only says SHOULD reject, 5.7.2 forbids a proxy to rewrite path/query). Host syntax beyond the field grammar is not judged. Non-trivial = hostile ingredient present and the request reached a backend; distinct = (frontend, hostile ingredient, method) resp. (frontend, position, class, place); the run is inconclusive if a (frontend, position, class) cell was never observed (counts per cell in byte_splice_cells)")
+	r.SetRule("full in-process BFE (HTTP + HTTPS with ALPN h2 and spdy/3.1), backend keep-alive off so each forwarded request has its own backend connection whose complete byte stream is captured; requests arrive over HTTP/1.1 (raw bytes), HTTP/2 (x/net framer + HPACK literals with arbitrary name/value bytes) and SPDY/3.1 (raw header block), carrying benign fields plus one hostile ingredient: header names with CR LF / LF / space / colon / NUL / DEL / obs-text, values with CRLF / LF / CR / CRLFCRLF+second request / NUL / CTL / DEL / obs-text, and method / path / host pseudo-headers with embedded request lines; oracle = strict RFC 7230 reference parse of the backend byte stream: exactly one request consuming all bytes, then method/target/host/fields/body compared with what a harness filter saw bfe accept. Second family (byte-splice, c25bytes.go): requests carrying the usual proxy-chain fields (X-Forwarded-For/-Proto/-Host/-Port, X-Real-Ip, Cookie, User-Agent, Referer, Accept, Authorization, a custom field) with ONE hostile byte spliced at the start / middle / end of one position: Host (:authority, :host), the value of each of those fields, a header name, the path, the query, the method. Byte classes: bare CR, CR at the end (on HTTP/1 the wire carries CR CR LF), NUL, another CTL (0x01-0x08,0x0b,0x0c,0x0e-0x1f), DEL, obs-text (0x80-0xff), HTAB, SP; on HTTP/2 and SPDY also LF and CRLF. On HTTP/1 LF / CRLF are not generated: LF ends a line at the reader, it is message structure, not a byte of a value (likewise a header name starting with SP/HTAB is an obs-fold continuation, and on SPDY NUL is the separator of a value list). In the middle the rest of the ingredient is sometimes 'Injected: 1', so a reader taking the hostile byte as a line end sees an added field. Cells (frontend, position, class, place) are enumerated round-robin in a seed-dependent order; the seed picks the byte of a class, the offset, the method. Same oracle: a rejected request (nothing at the backend) is always fine; what is forwarded must be one well-formed request: CTLs / bare CR anywhere and obs-text outside field values (name, method) are not well-formed; obs-text, HTAB and SP inside a field value are (RFC 7230 3.2.6). One named exclusion: bytes >= 0x80 inside the request-target are judged only by byte equality with the accepted target, not as malformed (RFC 7230 3.1.1 only says SHOULD reject, 5.7.2 forbids a proxy to rewrite path/query). Host syntax beyond the field grammar is not judged. Non-trivial = hostile ingredient present and the request reached a backend; distinct = (frontend, hostile ingredient, method) resp. (frontend, position, class, place); the run is inconclusive if a (frontend, position, class) cell was never observed (counts per cell in byte_splice_cells). Third family (backend-connection streams under failure, c25stream.go): 16 clusters WITH backend keep-alive (MaxIdleConnsPerHost 8), each with a raw backend that records every octet per connection, reads each request by its declared Content-Length / chunking and replies EARLY (after the head / after k body octets; with and without a response body) or, as control, after the message; one scenario at a time per cluster: an upload over HTTP/1.1 (Content-Length or chunked) or HTTP/2 (with / without content-length) of which the client sends nothing of the body / up to the middle of the body / of a chunk / of a chunk-size line / up to a chunk boundary (control: everything, pausing in the middle), bodies of 10..300 B (stay in bfe's 512 B request buffer) or 4..20 KB; once bfe has the backend's response (HandleReadResponse filter - sequencing only, never a verdict) the client aborts by FIN / half-close / RST (HTTP/1), RST_STREAM / connection close / never continuing (HTTP/2); then 2-3 further requests (GET, POST) from other client connections to the same cluster after 0 / 15 / 60 ms. Cells (frontend, framing, stage, abort, early) enumerated round-robin. Oracle per BACKEND CONNECTION: the recorded octets must parse (strict reference parser) as a sequence of complete well-formed requests, each with one request marker and method / target / Host / body equal to what a client sent under that marker; only the LAST message of a connection may be incomplete; a request line of the family inside the body span of a message is a violation (backend-stream:request-after-truncated-body when that body was never delivered in full by its client, else backend-stream:body-contains-another-request), as are not-well-formed octets after a request, unknown markers, and a complete request whose body differs (backend-stream:body-differs:*). The oracle is self-tested on hand-made streams at start. Non-trivial (family 3) = bfe had the early reply, the client aborted, and a later request of the scenario was forwarded; inconclusive if that shape, a reused backend connection or a connection ending in a truncated message never occurred")
 	r.Assume("bytes >= 0x80 in a forwarded request-target are not counted as malformed (judged by equality with the accepted target only); counted in target_obs_text_forwarded_*")
 	bs := e2e.NewBackendSet()
 	defer bs.Close()
